@@ -2289,7 +2289,7 @@ def zip64_scenarios(tier, rnd):
     sizes = [T - 1, T, T + 1] if tier == "quick" else [T - 2, T - 1, T, T + 1, 5 * (1 << 30)]
     for sz in sizes:
         for large in (False, True):
-            if tier == "quick" and (sz, large) in ((T - 1, True), (T + 1, False)):
+            if tier == "quick" and (sz, large) in ((T - 1, True), (T + 1, False), (T + 1, True)):
                 continue
             scs.append(big_entry("size-%d-%s" % (sz, "large" if large else "plain"), sz, large, comment="zip64" if sz % 2 else None))
     # header offset of the following entry / start of the directory exactly at the limit and either side:
@@ -2369,6 +2369,51 @@ def zip64_scenarios(tier, rnd):
                 "expect": {"producer": "foreign", "n": 2, "names_digest": names_digest([name.decode(), name2.decode()]),
                            "sizes": [{"i": 1, "usize": _big(usize), "crc": "%08x" % crc}]}}
     scs.append(foreign("foreign-T+5", T + 5, set(), True))
+    # both sizes carried by ZIP64 with compressed != uncompressed (the record's order matters): small deflated entries with
+    # forced fields in every subset that contains both sizes, from the independent builder
+    import refzip
+    for k, force in enumerate(({"usize", "csize"}, {"usize", "csize", "off"})):
+        ents = [{"name": b"defl-%d" % k, "method": 8, "data": b"compressible " * 300, "z64": force, "lz64": True, "z64_last": bool(k)},
+                {"name": b"stored", "method": 0, "data": b"xyz", "z64": {"off"}}]
+        fb, fv = refzip.build({"entries": ents, "z64end": True})
+        scs.append({"sc": "foreign-both-sizes-%d" % k, "kind": "foreign", "segments": [[0, fb.hex()]], "len": len(fb), "select": [1, 2], "allow_trailing": False, "read": [],
+                    "expect": {"producer": "foreign", "n": 2, "names_digest": names_digest([e["name"].decode() for e in ents]),
+                               "sizes": [{"i": 1, "usize": _big(len(ents[0]["data"])), "crc": "%08x" % (zlib.crc32(ents[0]["data"]) & 0xFFFFFFFF)}]}})
+    # two entries beyond 4 GiB: the second one needs all three ZIP64 values in its central record
+    if True:
+        head, tail = b"\x11", b"\x22"
+        s1, s2 = T + 1, T + 2
+        ops = [{"op": "start", "name": "big1", "large": True, "method": 0}, {"op": "zeros", "n": s1, "head": head.hex(), "tail": tail.hex()},
+               {"op": "start", "name": "big2", "large": True, "method": 0}, {"op": "zeros", "n": s2, "head": head.hex(), "tail": tail.hex()},
+               {"op": "start", "name": "small", "large": False, "method": 8}, {"op": "data", "data": "tail entry"}, {"op": "finish"}]
+        s = writer_sc("two-big", ops, select=[1, 2, 3])
+        s["read"] = [{"i": 2, "head": 1, "tail": 1, "expect": {"len": _big(s2), "head": head.hex(), "tail": tail.hex()}}]
+        s["expect"]["sizes"] = [{"i": 1, "usize": _big(s1), "crc": zc.crc(s1, head, tail)}, {"i": 2, "usize": _big(s2), "crc": zc.crc(s2, head, tail)}]
+        scs.append(s)
+    # raw copy of a source entry whose uncompressed size needs ZIP64 while its compressed size does not (and the other way round is
+    # impossible): the copy's local header must carry the ZIP64 record; neighbours written normally before and after
+    def lying_source(usize, csize):
+        name = b"declared-big"
+        comp = bytes((i * 37 + 11) & 0xFF for i in range(csize))
+        crc = 0x12345678
+        lz = struct.pack("<HHQQ", 1, 16, usize, csize)
+        lfh = struct.pack("<IHHHHHIIIHH", 0x04034b50, 45, 0, 8, 0x6000, 0x5821, crc, 0xFFFFFFFF, 0xFFFFFFFF, len(name), len(lz)) + name + lz
+        body = lfh + comp
+        z = struct.pack("<HHQ", 1, 8, usize)
+        cd = struct.pack("<IHHHHHHIIIHHHHHII", 0x02014b50, 0x032d, 45, 0, 8, 0x6000, 0x5821, crc, csize, 0xFFFFFFFF, len(name), len(z), 0, 0, 0, 0o100640 << 16, 0) + name + z
+        eocd = struct.pack("<IHHHHIIH", 0x06054b50, 0, 0, 1, 1, len(cd), len(body), 0)
+        b = body + cd + eocd
+        return {"segments": [[0, b.hex()]], "len": len(b)}, name.decode()
+    for k, (us, cs) in enumerate(((T + 100, 200), (T - 1, 300)) if tier == "quick" else ((T + 100, 200), (T - 1, 300), (T, 100), (5 * T, 1000))):
+        src, nm = lying_source(us, cs)
+        ops = [{"op": "start", "name": "before", "large": False, "method": 8}, {"op": "data", "data": "written before the copy"},
+               {"op": "rawcopy", "src": src, "idx": 0},
+               {"op": "start", "name": "after", "large": False, "method": 0}, {"op": "data", "data": "written after the copy"}, {"op": "finish"}]
+        s = writer_sc("rawcopy-%d" % k, ops, select=[1, 2, 3])
+        s["expect"]["n"] = 3
+        s["expect"]["names_digest"] = names_digest(["before", nm, "after"])
+        s["expect"]["sizes"] = [{"i": 2, "usize": _big(us), "crc": "12345678"}]
+        scs.append(s)
     if tier == "thorough":
         scs.append(foreign("foreign-T-1-forced", T - 1, {"usize", "csize", "off", "z64_last"}, True, prefix=77))
         scs.append(foreign("foreign-small-forced", 1000, {"usize", "off"}, True))
